@@ -15,6 +15,7 @@ PROP_UNITS = {
     'C11': ['draws'],
     'C20': ['csp'],
     'C12': ['tt'],
+    'C01': ['bits', 'movegen'],
 }
 
 
